@@ -87,6 +87,48 @@ def run_history(case):
             if kind == 'contacts':
                 contact_gen += 1
                 cfg_state['contacts'] = ['a%d@example.org' % contact_gen] + (['extra%d@example.org' % contact_gen] if contact_gen % 2 else [])
+            elif kind == 'contacts0':
+                # every contact address removed
+                contact_gen += 1
+                cfg_state['contacts'] = []
+            elif kind == 'renew-refused':
+                # the CA refuses every contact update during this run (a key roll-over, which comes first, goes through): the renewal
+                # fails, and what the CA did accept must be remembered across the restart that follows
+                e = st[1]
+                name = ca_names[e]
+                write_cfg()
+                on_start()
+                ca.set_plan(dict(plan, faults=[{'ca': name, 'kind': 'accountUpdate', 'action': 'acme_error', 'type': 'invalidContact', 'status': 400, 'id': 'update-refused'}]))
+                cpath = '%s/certs/crt%s_ecdsa-p256.crt.pem' % (d, e)
+                try:
+                    # put aside, not deleted: it comes back after the run so that nothing is due at the next start
+                    os.rename(cpath, cpath + '.aside')
+                except OSError:
+                    pass
+                cert = 'crt' + e
+
+                def stop_r(h, dm):
+                    po = [x for x in h if C.hook_event(x) == 'post-operation' and x.get('cert') == cert]
+                    return any(x['kv'].get('is_success') == 'true' for x in po) or len(po) >= 2
+                hooks, log, rc, to, err = daemon_run(stop_r, 60)
+                ca.set_plan(plan)
+                if os.path.exists(cpath + '.aside'):
+                    if not os.path.exists(cpath):
+                        os.rename(cpath + '.aside', cpath)
+                    else:
+                        os.remove(cpath + '.aside')
+                mine = [r for r in log if r.get('ca') == name]
+                if at[e] is not None:
+                    if [r for r in mine if r.get('kind') == 'keyChange' and r.get('status') == 200]:
+                        at[e] = dict(at[e], key_gen=key_gen)
+                        res['key_changes_seen'] += 1
+                    if [r for r in mine if r.get('kind') == 'accountUpdate' and r.get('fault')]:
+                        res['account_faults_fired'] = res.get('account_faults_fired', 0) + 1
+                    if [r for r in mine if r.get('kind') == 'newAccount' and r.get('status') in (200, 201)]:
+                        # (re-)registered during this run: the CA has what the request carried
+                        at[e] = None
+                        res['infra'] = 'registration during a refused-update step: history not judged further'
+                        break
             elif kind == 'key':
                 key_pos = (key_pos + 1) % len(KEY_CYCLE)
                 cfg_state['key_type'] = KEY_CYCLE[key_pos]
@@ -408,6 +450,13 @@ MANDATORY = [
     [('key',), ('renew', 'A'), ('restart',)],                                   # with key_start=3: rsa2048 -> rsa4096 (same signature algorithm)
     [('key',), ('restart',), ('key',)],
     [('both',), ('restart',), ('forget', 'A')],
+    [('contacts0',)],
+    [('contacts0',), ('renew', 'A'), ('contacts',)],
+    [('contacts',), ('contacts0',), ('restart',)],
+    [('both',), ('renew-refused', 'A'), ('restart',), ('renew', 'A')],
+    [('both',), ('renew-refused', 'B'), ('renew', 'A'), ('restart',)],
+    [('contacts',), ('renew-refused', 'A'), ('restart',)],
+    [('key',), ('contacts',), ('renew-refused', 'A'), ('restart',), ('renew', 'A'), ('key',)],
     [('contacts',), ('renew-fault', 'A')],
     [('key',), ('renew-fault', 'A')],
     [('both',), ('renew-fault', 'B')],
@@ -438,7 +487,7 @@ def gen(tier, r):
 
 
 def sig_of(cls, case, what):
-    edits = sorted({s[0] for s in case['steps'] if s[0] in ('contacts', 'key', 'both', 'eab+', 'eab-', 'forget')})
+    edits = sorted({s[0] for s in case['steps'] if s[0] in ('contacts', 'contacts0', 'key', 'both', 'eab+', 'eab-', 'forget')})
     if cls == 'not-synchronised':
         # keyed on the combination of pending changes at the failing renewal
         both = 'both' in edits or ('contacts' in edits and 'key' in edits)
